@@ -169,7 +169,7 @@ show("dflt", lambda: (cee.dflt(3), cee.dflt(3, 4), cee.dflt(3, b=5), cee.dflt(a=
 show("tmpl", lambda: (cee.tmpl(41), cee.tmpl(1.25)))
 show("weigh", lambda: (cee.weigh(3, 2.5), cee.weigh(count=3, scale=0.5)))
 show("order", lambda: (cee.order(1, 2.5, "three", True), cee.order(d=False, c="", b=-2.5, a=-1)))
-show("ns", lambda: cee.ns.nsf(1))
+show("ns", lambda: (cee.ns.nsf(1), cee.ns.inner.innerf(1)))
 show("dims", lambda: (cee.halo(1, 3), cee.halo(m=2, n=2), cee.nodes(1, 3), cee.nodes(2, 2), cee.halo(0, 1)))
 show("total", lambda: (cee.total([1, 2, 3]), cee.total([1.5, 2.0]), cee.total([1, 2, 3.5]), cee.total(v=[0.25, 0.25]), cee.total([])))
 show("scale", lambda: (cee.scale(5), cee.scale(5, 2), cee.scale(n=4), cee.scale("ab", 1, 2, 3)))
@@ -203,12 +203,10 @@ def python_scenario(args):
 
     y = _y.safe_load(c02.SCEN_YAML)
     y["options"] = dict({"wrap_fortran": False, "wrap_c": False, "wrap_python": True, "wrap_lua": False, "PY_array_arg": "list"}, **more)
-    # left out: by-value class result, const class reference result, class-pointer free function, nested namespace (they do not build or crash: C05 / known findings),
+    # left out: by-value class result, const class reference result, class-pointer free function (they do not build or crash: C05 / known findings),
     # the const / non-const pair (no documented rule says which one Python reaches)
     y["declarations"] = [d for d in y["declarations"] if not d["decl"].startswith(("Cls valCls", "void takes", "int byVal", "const Cls &crefCls", "int sumRank"))]
     for d in y["declarations"]:
-        if d["decl"] == "namespace ns":
-            d["declarations"] = [x for x in d["declarations"] if not x["decl"].startswith("namespace")]
         if d["decl"] == "class Cls":
             d["declarations"] = [m for m in d["declarations"] if "which" not in m["decl"]]
     # a struct that Python sees as a class (PY_struct_arg: class): constructor over the members, one of them read-only
@@ -249,7 +247,7 @@ def python_scenario(args):
     D = A.NATIVE["double"]
     exp_obs = ["OBS ids -> (5, 9)", "OBS add -> (8, 13, 4)", "OBS twice -> (42, 4)", "OBS rename -> (None, None)", "OBS names -> ('', 'bee')",
                "OBS find -> (100, 101)", "OBS ref -> (None, 'zed', 'zed', 101)", "OBS new -> (7, 8, True)", "OBS color -> (3, 4, 0)", "OBS over -> (None, None)", "OBS dflt -> (32, 34, 35, 62)",
-               "OBS tmpl -> (42, 2.5)", "OBS weigh -> (7.5, 1.5)", "OBS order -> (None, None)", "OBS ns -> 2", "OBS dims -> (%r, %r, %r, %r, %r)" % (list(range(100, 109)), list(range(100, 108)), list(range(200, 208)), list(range(200, 209)), [100, 101]),
+               "OBS tmpl -> (42, 2.5)", "OBS weigh -> (7.5, 1.5)", "OBS order -> (None, None)", "OBS ns -> (2, 3)", "OBS dims -> (%r, %r, %r, %r, %r)" % (list(range(100, 109)), list(range(100, 108)), list(range(200, 208)), list(range(200, 209)), [100, 101]),
                "OBS total -> (6, 3.5, 6.5, 0.5, 0)", "OBS scale -> ((15, 8), (10, 7), (12, 7), 6)", "OBS tally -> (106, 16, 104, 10)", "OBS filltext -> 'cap=20'", "OBS rec -> (2, 7, 1.5, 3.0, 1, 1.0)", "OBS ser -> (3, [1, 2, 3], 6, None, [11, 12, 13], 36)", "OBS ser-set -> ([3, 3, 3, 3], 12)", "OBS over-kw -> (None, None, 3)", "OBS bad-add raises TypeError/ValueError",
                "OBS bad-ctor raises TypeError/ValueError", "OBS bad-over raises TypeError/ValueError", "OBS bad-extra raises TypeError/ValueError",
                "OBS bad-kw raises TypeError/ValueError"]
@@ -264,7 +262,7 @@ def python_scenario(args):
                 "RECV tmpl<int> a=41", "RECV tmpl<double> a=" + A.rnd(D, 1.25),
                 "RECV weigh<int,double> count=3 scale=" + A.rnd(D, 2.5), "RECV weigh<int,double> count=3 scale=" + A.rnd(D, 0.5),
                 "RECV order a=1 b=%s c=5:[three] d=1" % A.rnd(D, 2.5), "RECV order a=-1 b=%s c=0:[] d=0" % A.rnd(D, -2.5),
-                "RECV ns::nsf a=1", "RECV halo n=1 m=3", "RECV halo n=2 m=2", "RECV nodes n=1 m=3", "RECV nodes n=2 m=2", "RECV halo n=0 m=1", "RECV total(int) n=3", "RECV total(double) n=2", "RECV total(double) n=3", "RECV total(double) n=2", "RECV total(int) n=0",
+                "RECV ns::nsf a=1", "RECV ns::inner::innerf a=1", "RECV halo n=1 m=3", "RECV halo n=2 m=2", "RECV nodes n=1 m=3", "RECV nodes n=2 m=2", "RECV halo n=0 m=1", "RECV total(int) n=3", "RECV total(double) n=2", "RECV total(double) n=3", "RECV total(double) n=2", "RECV total(int) n=0",
                 "RECV scale(int) n=5 factor=3", "RECV scale(int) n=5 factor=2", "RECV scale(int) n=4 factor=3", "RECV scale(str) name=2:[ab] a=1",
                 "RECV tally(arr) n=3 bias=100", "RECV tally(arr) n=3 bias=10", "RECV tally(arr) n=1 bias=100", "RECV tally(4) a=1", "RECV fillText cap=20", "RECV recWeight id=2 serial=7 w=" + A.rnd(D, 1.5), "RECV recWeight id=4 serial=5 w=" + A.rnd(D, 0.5),
                 "RECV serSum n=3", "RECV serShift n=3 step=10", "RECV serSum n=3", "RECV serShift n=4 step=2", "RECV serSum n=4",
